@@ -1,5 +1,5 @@
 #!/bin/bash
-# usage: run.sh <Cxx> <quick|thorough>   |   run.sh replay <file>
+# usage: run.sh <Cxx> <quick|thorough>   |   run.sh replay <file>   |   run.sh multi <tier> <Cxx>...
 # Rebuilds the overlay (map-order + fuel instrumentation) and the harness from
 # the CURRENT working tree of /repo into a scratch directory, runs the check,
 # removes the scratch directory. Exit 0 = held on everything explored,
@@ -28,5 +28,16 @@ export VERIF_OVERLAY="$SCR/ov/overlay.json"
   echo "harness build failed"; exit 3; }
 if [ "$1" = replay ]; then
   "$SCR/vcheck" replay "$2"; exit $?
+fi
+if [ "$1" = multi ]; then
+  # run.sh multi <tier> <id>...: one build, several checks (used by the seeded-change matrix);
+  # prints "== <id> exit=<code>" after the output of each check, exits with the largest code
+  tier=$2; shift 2; worst=0
+  for id in "$@"; do
+    "$SCR/vcheck" run "$id" "$tier"; code=$?
+    echo "== $id exit=$code"
+    [ $code -gt $worst ] && worst=$code
+  done
+  exit $worst
 fi
 "$SCR/vcheck" run "$1" "$2"
